@@ -55,10 +55,12 @@ type scenario struct {
 	MountDeclK  []int    `json:"mount_decline_k,omitempty"` // the registry declines the k-th cross-repository mount request it sees (202 + upload session), grants the others
 	MountDeclN  []string `json:"mount_decline_n,omitempty"` // ... declines the mount of these blobs
 	Cancel202   int      `json:"cancel202,omitempty"`
-	Callback    int      `json:"callback,omitempty"` // ImageWithCallback installed (always for layout targets: observation points)
-	Cache       int      `json:"cache,omitempty"`    // reg.WithCache: manifest / referrer cache of the reg scheme on
-	Chunked     int      `json:"chunked,omitempty"`  // WithBlobSize(chunk 96, max 128): blobs above 128 bytes go up in chunks (PATCH)
-	PageSize    int      `json:"pagesize,omitempty"` // registries page tag and referrer listings with this many entries       // registries answer 202 (not 204) to the DELETE of an upload session, which is what regclient takes for success
+	Prior       string   `json:"prior,omitempty"`     // what the same client did before the observed copy: "copy" = copied the image to another repository of the target registry, "get" = fetched every manifest of the source by digest
+	ListOrder   string   `json:"listorder,omitempty"` // order in which registries list tags / referrers: "" sorted | rev | ins (named tags first, digest tags after) | rand (seeded)
+	Callback    int      `json:"callback,omitempty"`  // ImageWithCallback installed (always for layout targets: observation points)
+	Cache       int      `json:"cache,omitempty"`     // reg.WithCache: manifest / referrer cache of the reg scheme on
+	Chunked     int      `json:"chunked,omitempty"`   // WithBlobSize(chunk 96, max 128): blobs above 128 bytes go up in chunks (PATCH)
+	PageSize    int      `json:"pagesize,omitempty"`  // registries page tag and referrer listings with this many entries       // registries answer 202 (not 204) to the DELETE of an upload session, which is what regclient takes for success
 	Opts        copyOpts `json:"opts"`
 	ByDigest    int      `json:"bydigest,omitempty"`
 	TgtByDigest int      `json:"tgtbydigest,omitempty"`
@@ -258,6 +260,10 @@ func newWorld(sc *scenario, scratch string) (*world, error) {
 			seed(w.srcHost, srcRepo, n)
 		}
 		w.srcHost.Lock()
+		// unrelated tags around the digest tags in any listing order
+		for _, t := range []string{"aa-first", "stable", "zz-last"} {
+			w.srcHost.Repos[srcRepo].Tags[t] = sh.Nodes[sh.Root].Dig
+		}
 		w.srcHost.Repos[srcRepo].Tags[srcTag] = sh.Nodes[sh.Root].Dig
 		for _, d := range w.dtags {
 			w.srcHost.Repos[srcRepo].Tags[d.Tag] = w.nodes[d.To].Dig
